@@ -514,6 +514,70 @@ def run(ctx):
                 ctx.count("worlds with many scopes and multi-digit local names")
         finally:
             impl.drop_scratch(d)
+    # ---- one file compiled twice (included along two paths, linked twice, included in a '.repeat' of two): a name it exports
+    # is then defined twice - an error; a name it keeps private is defined once per copy, each copy bound to its own
+    srng = ctx.rng("c11-twice")
+    for _ in range(200 if ctx.thorough else 60):
+        exported = srng.random() < 0.6
+        nm = srng.choice(["counter", "Tbl", "v$1", "k.k"])
+        val = srng.randrange(1, 200)
+        kind = srng.choice(["label", "const", "extern-before", "extern-after", "extern-all"]) if exported else srng.choice(["plabel", "pconst"])
+        lib = {"label": "%s:: .word %d.\n" % (nm, val), "const": "%s == %d.\n.word %s\n" % (nm, val, nm),
+               "extern-before": ".extern %s\n%s: .word %d.\n" % (nm, nm, val), "extern-after": "%s: .word %d.\n.extern %s\n" % (nm, val, nm),
+               "extern-all": "%s: .word %d.\n.extern all\n" % (nm, val),
+               "plabel": "%s: .word %d., %s\n" % (nm, val, nm), "pconst": "%s = %d.\n.word %s, %s\n" % (nm, val, nm, nm.upper() if srng.random() < 0.3 else nm)}[kind]
+        shape = srng.choice(["diamond", "diamond", "linked-twice", "repeat", "twice-in-a-row"])
+        use = (".word %s\n" % nm) if exported and srng.random() < 0.7 else "nop\n"
+        d = impl.scratch_dir()
+        try:
+            lp = os.path.join(d, "lib.mac")
+            with open(lp, "w", encoding="utf-8") as f:
+                f.write(lib)
+            extra = []
+            if shape == "diamond":
+                with open(os.path.join(d, "drv.mac"), "w", encoding="utf-8") as f:
+                    f.write("nop\n.include \"lib.mac\"\n")
+                extra = [("drv.mac", "nop\n.include \"lib.mac\"\n")]
+                order = [".include \"lib.mac\"\n", ".include \"drv.mac\"\n"]
+                srng.shuffle(order)
+                main = ".link 1000\n" + order[0] + use + order[1]
+                mains = [(os.path.join(d, "main.mac"), main)]
+            elif shape == "linked-twice":
+                mains = [(os.path.join(d, "main.mac"), ".link 1000\n" + use), (lp, lib), (lp, lib)]
+            elif shape == "repeat":
+                mains = [(os.path.join(d, "main.mac"), ".link 1000\n" + use + ".repeat 2 {\n.include \"lib.mac\"\n}\n")]
+            else:
+                mains = [(os.path.join(d, "main.mac"), ".link 1000\n.include \"lib.mac\"\n" + use + ".include \"lib.mac\"\n")]
+            r = impl.assemble(mains)
+            inp = {"files": [(os.path.basename(p), t) for p, t in mains] + ([("lib.mac", lib)] if shape != "linked-twice" else []) + extra, "nmain": len(mains),
+                   "shape": shape, "definition": kind}
+            ctx.case(("twice", json.dumps(inp["files"])))
+            ctx.count("one file compiled twice: %s, %s" % (shape, "exported name" if exported else "private name"))
+            if r.outcome in ("crash", "hang"):
+                ctx.violation("a program that compiles one file twice ended in " + r.outcome, inp, expected="an image or reported errors", observed=r.exc)
+            elif exported and r.outcome == "ok":
+                ctx.violation("a name exported by a file that is compiled twice is defined twice, and no error was reported", inp,
+                              expected="a duplicate-definition error", observed=r.summary())
+            elif not exported:
+                ref = val.to_bytes(2, "little")
+                copy = ref * (3 if kind == "pconst" else 1)
+                words_ = None
+                if kind == "plabel":
+                    words_ = "label"
+                if r.outcome != "ok":
+                    ctx.violation("a file with private names only cannot be compiled twice", inp, expected="an image", observed=r.summary())
+                elif kind == "pconst" and r.code.count(ref) < 4:
+                    ctx.violation("the copies of a private constant are not each bound to their own definition", inp, expected="the value in every copy",
+                                  observed=r.code.hex())
+                elif kind == "plabel":
+                    # every copy is '<val>, <own address>'
+                    idx = [i for i in range(0, len(r.code) - 3, 2) if r.code[i:i + 2] == ref and int.from_bytes(r.code[i + 2:i + 4], "little") == r.base + i]
+                    if len(idx) < 2:
+                        ctx.violation("the copies of a private label are not each bound to their own definition", inp, expected="two self-referring copies",
+                                      observed=r.code.hex())
+        finally:
+            impl.drop_scratch(d)
+
     for (inp, files, r, ikeys), a in zip(jobs, ctx.driver.ask(reqs)):
         m = asmrun.parse_answer(a)
         if m["outcome"] == "unsupported":
